@@ -28,6 +28,8 @@ func c13(c *eng.Ctx, r *eng.Report) {
 		"R13.3 every Mod/ModInverse of the sharing and recovery arithmetic uses the package variable curveOrder (initialised from bn256.Order), and the Lagrange loop has the shape L_i(0)=Π_{j≠i} x_j/(x_j−x_i): skips exactly j==i, multiplies x_j into the numerator, (x_j−x_i) into the denominator, inverts the denominator, and scales share i by that coefficient; " +
 		"R13.4 dealer and group key agree on the constant coefficient: the public key a dealer publishes is that of secretSeed.Deri(0), coefficient i is secretSeed.Deri(i), ShareSeckey treats msec[0] as the constant term, the member key is AggregateSeckeys over every received share and the group key AggregatePubkeys over every received dealer key, aggregated only once all member pieces arrived, and the member's published share key is GeneratePubkey of that aggregated secret; " +
 		"R13.5 recovery and aggregation do not write through their inputs: every in-place curve/signature operation in recoverSignature, RecoverGroupSignature, AggregatePubkeys and GroupSignGenerator works on a value allocated in that function and never initialised by a shallow struct copy of an input (Signature and Pubkey wrap a pointer). " +
+		"R13.6 a dealer deals one polynomial per group: the seed, the coefficients, the shares and the published dealer key are computed from the miner's long-term secret and the group hash with no randomness, clock or environment source in their cone, so a dealer whose context is rebuilt (restart, re-delivered init) hands the remaining members pieces of the same polynomial the others already hold. " +
+		"R13.7 recovery keeps nothing between calls: no cache, package-variable store or shared object in the cone of recoverSignature/RecoverGroupSignature (a memo keyed by the signer *set* and holding per-*position* coefficients is right for the first arrival order only). " +
 		"Not decided: that interpolation over any ≥k points yields the same group element (algebra), DKG secrecy/robustness, hash-to-curve, anything about the pairing."
 	r.Trusted = append(r.Trusted, "math/big arithmetic", "consensus/groupsig/bn256 curve arithmetic (Add, ScalarMult are the group law)", "common.ToHex is an injective hex rendering of its byte argument")
 	r.Assume = append(r.Assume, "member ids are distinct and non-zero modulo the curve order (ids are SHA3 of public keys)")
@@ -36,6 +38,8 @@ func c13(c *eng.Ctx, r *eng.Report) {
 	c13Modulus(c, r)
 	c13Dealer(c, r)
 	c13ReadOnly(c, r)
+	c13DealerDeterminism(c, r)
+	c13RecoveryPure(c, r)
 }
 
 func isGetGroupK(v ssa.Value) *ssa.Call {
@@ -995,4 +999,80 @@ func holdsPointer(t types.Type) bool {
 		}
 	}
 	return false
+}
+
+// c13DealerDeterminism: members keep the first piece they received from a
+// dealer and refuse a second one. All pieces a dealer ever sends for a group
+// therefore have to come from one polynomial, whichever incarnation of its
+// context sent them.
+func c13DealerDeterminism(c *eng.Ctx, r *eng.Report) {
+	const rule = "R13.6"
+	r.Min(rule, 1)
+	var entries []*ssa.Function
+	for _, n := range []string{"NewGroupNodeInfo", "(*groupNodeInfo).genSharePiece", "(*groupNodeInfo).getSeedPubKey", "(*groupNodeInfo).genSecKeyList", "(*groupNodeInfo).genSeedSecKey"} {
+		fn := c.Func("consensus/logical/group_create", n)
+		if !r.Anchor(fn != nil, rule, "group_create."+n) {
+			return
+		}
+		entries = append(entries, fn)
+	}
+	cone := c.ConeOf(entries, func(fn *ssa.Function) bool {
+		p := eng.FuncPkgPath(fn)
+		return strings.HasPrefix(p, eng.Mod+"/src/consensus/") || strings.HasPrefix(p, eng.Mod+"/src/common")
+	})
+	bad := ""
+	nfn := 0
+	for _, fn := range cone.Sorted() {
+		if fn.Blocks == nil || strings.Contains(eng.FuncPkgPath(fn), "/middleware/log") {
+			continue
+		}
+		nfn++
+		for _, h := range eng.ScanNondeterminism(fn) {
+			switch h.Kind {
+			case "rand", "clock", "env":
+				if bad == "" {
+					bad = h.Detail + " in " + eng.FuncName(fn) + " (" + c.Pos(h.Pos) + "; " + cone.PathTo(fn) + ")"
+				}
+			}
+		}
+	}
+	r.Extra["dealer_cone_functions"] = nfn
+	r.Check(bad == "" && nfn >= 10, rule, "dealer:deterministic", c.Pos(entries[0].Pos()), fmt.Sprintf("no randomness, clock or environment source in the %d functions that compute a dealer's seed, coefficients, shares and public key", nfn), "the dealer's polynomial depends on "+bad+": a dealer whose group context is rebuilt deals a different polynomial, members that kept its first piece refuse the new one while the others accept it, the members' signing keys no longer lie on one polynomial and no k-subset recovers a signature that verifies under the group key")
+}
+
+// c13RecoveryPure: same conservative purity rule as R14.4/R15.5, for recovery.
+func c13RecoveryPure(c *eng.Ctx, r *eng.Report) {
+	const rule = "R13.7"
+	r.Min(rule, 1)
+	var entries []*ssa.Function
+	for _, n := range []string{"recoverSignature", "RecoverGroupSignature"} {
+		fn := c.Func("consensus/groupsig", n)
+		if !r.Anchor(fn != nil, rule, "groupsig."+n) {
+			return
+		}
+		entries = append(entries, fn)
+	}
+	cone := c.ConeOf(entries, func(fn *ssa.Function) bool {
+		return strings.HasPrefix(eng.FuncPkgPath(fn), eng.Mod+"/src/consensus/")
+	})
+	bad := ""
+	nfn := 0
+	for _, fn := range cone.Sorted() {
+		if fn.Blocks == nil {
+			continue
+		}
+		nfn++
+		for _, h := range eng.ScanNondeterminism(fn) {
+			switch h.Kind {
+			case "cache", "global-store", "shared-object", "syncmap-range":
+				if h.Kind == "shared-object" && (strings.Contains(h.Detail, "curveOrder") || strings.Contains(h.Detail, "math/big.Int") && strings.Contains(h.Detail, "Cmp")) {
+					continue
+				}
+				if bad == "" {
+					bad = h.Detail + " in " + eng.FuncName(fn) + " (" + c.Pos(h.Pos) + ")"
+				}
+			}
+		}
+	}
+	r.Check(bad == "" && nfn >= 5, rule, "recovery:pure", c.Pos(entries[0].Pos()), fmt.Sprintf("no process-local memo in the %d functions of the recovery cone", nfn), "signature recovery consults process-local state: "+bad+" — what a recovery computes then depends on the recoveries that ran before it in this process (e.g. Lagrange coefficients cached for the same signers in another arrival order), so the same k-subset can give a signature that does not verify")
 }
